@@ -373,10 +373,11 @@ class FitRange2D:
         return self.row, self.col
 
     def check(self, rows: int, cols: int):
-        if not self.row.stop <= rows:
+        # Note: 'stop' is None when no fit range is provided (full range)
+        if self.row.stop is not None and not self.row.stop <= rows:
             raise ValueError("Value of target fit range is wrong")
 
-        if not self.col.stop <= cols:
+        if self.col.stop is not None and not self.col.stop <= cols:
             raise ValueError("Value of target fit range is wrong")
 
 
@@ -437,16 +438,17 @@ class FitRange3D:
         return self.time, self.row, self.col
 
     def check(self, rows: int, cols: int, readout_times: int | None = None):
-        if not self.row.stop <= rows:
+        # Note: 'stop' is None when no fit range is provided (full range)
+        if self.row.stop is not None and not self.row.stop <= rows:
             raise ValueError("Value of target fit range is wrong")
 
-        if not self.col.stop <= cols:
+        if self.col.stop is not None and not self.col.stop <= cols:
             raise ValueError("Value of target fit range is wrong")
 
         if readout_times is None:
             raise ValueError("Target data is not a 3 dimensional array")
 
-        if not self.time.stop <= readout_times:
+        if self.time.stop is not None and not self.time.stop <= readout_times:
             raise ValueError("Value of target fit range is wrong")
 
 
@@ -466,27 +468,45 @@ def to_fit_range(
         raise ValueError("Fitting range should have 4 or 6 values")
 
 
+def _slice_length(data: slice) -> int | None:
+    """Get the number of elements selected by a slice (or None if it is not bounded)."""
+    if data.stop is None:
+        return None
+
+    start: int = 0 if data.start is None else data.start
+    return data.stop - start
+
+
 def _check_out_fit_ranges(
     target_fit_range: FitRange2D | FitRange3D,
     out_fit_range: FitRange2D | FitRange3D,
 ):
+    def _has_different_lengths(target: slice, out: slice) -> bool:
+        target_length: int | None = _slice_length(target)
+        out_length: int | None = _slice_length(out)
+
+        return (
+            target_length is not None
+            and out_length is not None
+            and target_length != out_length
+        )
+
     if (
         isinstance(target_fit_range, FitRange3D)
         and isinstance(out_fit_range, FitRange3D)
-        and target_fit_range.time.stop != out_fit_range.time.stop
+        and _has_different_lengths(target_fit_range.time, out_fit_range.time)
     ):
         raise ValueError(
             "Fitting ranges have different lengths in dimension 'readout time'"
         )
 
-    if target_fit_range.row.stop != out_fit_range.row.stop:
+    if _has_different_lengths(target_fit_range.row, out_fit_range.row):
         raise ValueError("Fitting ranges have different lengths in dimension 'y'")
 
-    if target_fit_range.col.stop != out_fit_range.col.stop:
+    if _has_different_lengths(target_fit_range.col, out_fit_range.col):
         raise ValueError("Fitting ranges have different lengths in dimension 'x'")
 
 
-# TODO: Refactor and add more unit tests. See #328
 def check_fit_ranges(
     target_fit_range: FitRange2D | FitRange3D | None,
     out_fit_range: FitRange2D | FitRange3D | None,
